@@ -260,6 +260,7 @@ def run_shard(spec_):
 TEXT = ("Held on every log observed: ~680 (quick) / ~25 000 (thorough) problems driven by random call sequences; every "
         "row of every resulting log (~10 000 rows quick) is re-evaluated independently (targets exact, penalty 1e-12) "
         "and reloaded (knobs, flags), and every take_best step that returns is checked against the minimum penalty "
-        "logged during that call. Exploration over sampled problems and call sequences.")
+        "logged during that call. Exploration over sampled problems and call sequences."
+        ' Call sequences include directed move/disable/reload/step patterns, calls with an injected action fault at the k-th evaluation, and every row is reloaded coming from another row (preferably one with other flags).')
 NOTE = "Trusted: the harness's own merit function and penalty formula; opt.log() as the recorded history under test."
 TECHNIQUE = "runtime monitoring: offline checker over the recorded optimizer log (independent re-evaluation and reload of every row; take_best minimum-penalty oracle per call)"
